@@ -4,6 +4,7 @@ package c03
 import (
 	"context"
 	"errors"
+	"time"
 
 	"github.com/jig/lisp"
 	"github.com/jig/lisp/env"
@@ -208,6 +209,30 @@ func Harness_try() {
 	runAndCompare(tryForm("t", vrt.Param("nest", 1)))
 }
 
+// farCtx is a caller's context that never ends but has a deadline (an hour away): with a
+// deadline the try body runs under a derived budget context that is released after the body;
+// the handler, the finally body and whatever follows the try form still run under the caller's.
+type farCtx struct{ deadline time.Time }
+
+func (c *farCtx) Deadline() (time.Time, bool) { return c.deadline, true }
+func (c *farCtx) Done() <-chan struct{}       { return nil }
+func (c *farCtx) Err() error                  { return nil }
+func (c *farCtx) Value(any) any               { return nil }
+
+// callerCtx: context.Background(), or (parameter deadline=1) a live context with a far deadline.
+func callerCtx() context.Context {
+	if vrt.Param("deadline", 0) == 1 {
+		return &farCtx{deadline: time.Now().Add(time.Hour)}
+	}
+	return context.Background()
+}
+
+// Harness_try_deadline: the same programs evaluated under a caller's context that has a (far) deadline.
+func Harness_try_deadline() { Harness_try() }
+
+// Harness_try_tail_deadline: Harness_try_tail under a caller's context with a far deadline.
+func Harness_try_tail_deadline() { Harness_try_tail() }
+
 func runAndCompare(prog MalType) {
 	m := &ref.Machine{Fuel: 400}
 	rg := refGlobals(m)
@@ -218,7 +243,8 @@ func runAndCompare(prog MalType) {
 	Trace = nil
 	var gotV MalType
 	var gotErr error
-	panicked, pmsg := vrt.NoPanic(func() { gotV, gotErr = lisp.EVAL(context.Background(), prog, e) })
+	ctx := callerCtx()
+	panicked, pmsg := vrt.NoPanic(func() { gotV, gotErr = lisp.EVAL(ctx, prog, e) })
 	vrt.Assert(!panicked, "EVAL panicked: "+pmsg)
 	if wantTh == nil {
 		vrt.Assert(gotErr == nil, "try form: error where a value is prescribed")
